@@ -26,6 +26,30 @@ package main
 //   calls      conversions uint64(x) uint(x) uintptr(x) int(x) int64(x) uint8(x) byte(x) uint16(x) uint32(x),
 //              bits.LeadingZeros64(x) (with "math/bits" imported as `bits`)
 //   everything else (floats, strings, other calls, comparisons, unary operators, ...) -> unsupported
+//
+// Private helpers: a call of an UNEXPORTED function of the package, or of an unexported method on the receiver
+// (declared on the receiver's type or on a struct it embeds), is inlined when the helper's body is straight-line code
+// (`:=` / `var` declarations only) ending in a single `return e` (or `return a, b`, consumed by a tuple assignment
+// `x, y := helper(...)`, or forwarded by `return helper(...)`): parameters stand for the argument expressions (read in the
+// caller), fields of the helper's receiver are the caller's receiver fields, the helper's locals become `let`s named
+// `<helper>_<local>`; nesting depth at most 3.  Inside a helper only parameters, receiver fields, package constants
+// and `callIn` calls are leaves (no inputs by name).  `callIn` names an input by what it is: the result of a call
+// of the given package function (`getHash(...)` -> `secondHash`), wherever and under whatever name it is stored.
+// A kernel statement that is no longer in the named function is looked for in the unexported helpers that function
+// calls (depth 3; the match must be unique).  Package-level integer constants are replaced by their values.
+// In a call target `r.m` (tgtArg) `r` stands for the receiver, whatever its name in the function that is read.
+//
+// Store kernels (tgtStore): a read-modify-write STATEMENT `recv.f[i]..[j] op= e` (or `recv.f[..] = e'` with the
+// old value of the left-hand side occurring in e') becomes `def k (old ... : UInt64) := old op e`.  Inputs: the
+// old value of the left-hand side (named by `lhsInput`), function parameters, and elements `x[i]..[j]` of a
+// local slice / of the same field of another parameter of the receiver's type, indexed exactly like the
+// left-hand side (named through `alias`).  The statement must keep its shape, otherwise `unsupported`:
+//   - exactly one statement of the function stores to the field (an element of another depth, `++`, a
+//     multi-assignment, a second store - e.g. a saturating fix-up - are rejected);
+//   - it is reached through `for` / `range` / block statements only (not inside if / switch / select / a closure),
+//     and every enclosing loop body consists of that single statement (no guard, `continue` or `break`);
+//   - no `if` / `switch` that precedes it mentions one of its operands or index variables (an overflow guard);
+//   - a parameter operand is not reassigned in the function; calls (a saturating helper) are not arithmetic.
 
 import (
 	"fmt"
@@ -132,6 +156,7 @@ const (
 	tgtReturn targetKind = iota // result #index of the final `return` of the function body
 	tgtAssign                   // right-hand side of the unique `name = e` / `name := e` / `name[i] = e`
 	tgtArg                      // argument #index of the unique call whose function prints as `name`
+	tgtStore                    // the unique read-modify-write statement storing to the receiver field `name` (see above)
 )
 
 type kernelSpec struct {
@@ -146,6 +171,11 @@ type kernelSpec struct {
 	unwrap []string          // single-argument calls to strip from the target, outermost first
 	params []string          // the inputs, in the order of the Lean binders
 	opaque map[string]string // `uint64(<callee>(...))` -> input of that name (uint64); for non-integer subterms
+	callIn map[string]string // result of a call of the package function <callee> (not an input by name) -> input of that name
+	// tgtStore only
+	depth    int               // number of index levels of the stored element (`recv.f[i][j]`: 2, `recv.f`: 0)
+	lhsInput string            // name of the input that stands for the old value of the left-hand side
+	alias    map[string]string // element leaf (`x` for a local `x[i][j]`, `p_f` for `p.f[i][j]`) -> input name
 }
 
 var arithKernels = []kernelSpec{
@@ -162,15 +192,22 @@ var arithKernels = []kernelSpec{
 	{lean: "cuckooFirstIndex", file: "base_cuckoo_filter.go", recv: "AbstractCuckooFilter", fn: "getPositions",
 		kind: tgtReturn, index: 1, params: []string{"hash", "size"}},
 	{lean: "cuckooSecondIndex", file: "base_cuckoo_filter.go", recv: "AbstractCuckooFilter", fn: "getPositions",
-		kind: tgtReturn, index: 2, params: []string{"hash", "secondHash", "size"}},
+		kind: tgtReturn, index: 2, params: []string{"hash", "secondHash", "size"}, callIn: map[string]string{"getHash": "secondHash"}},
 	{lean: "cuckooKickIndexMem", file: "cuckoo_filter.go", recv: "CuckooFilter", fn: "Insert",
-		kind: tgtAssign, name: "newIndex", params: []string{"index", "hash", "len_buckets"}},
+		kind: tgtAssign, name: "newIndex", params: []string{"index", "hash", "len_buckets"}, callIn: map[string]string{"getHash": "hash"}},
 	{lean: "cuckooKickIndexRedis", file: "cuckoo_filter_redis.go", recv: "CuckooFilterRedis", fn: "Insert",
-		kind: tgtAssign, name: "newIndex", params: []string{"index", "hash", "len_buckets"}},
+		kind: tgtAssign, name: "newIndex", params: []string{"index", "hash", "len_buckets"}, callIn: map[string]string{"getHash": "hash"}},
 	{lean: "bloomIndexInt", file: "bloom_filter.go", recv: "BloomFilter", fn: "getIndex",
 		kind: tgtReturn, index: 0, unwrap: []string{"uint", "math.Abs", "float64"},
 		params: []string{"hashes_0", "hashes_1", "i", "cubic", "size"},
 		opaque: map[string]string{"math.Floor": "cubic"}},
+	{lean: "cmsCellUpdate", file: "count_min_sketch.go", recv: "CountMinSketch", fn: "Update",
+		kind: tgtStore, name: "matrix", depth: 2, lhsInput: "cell", params: []string{"cell", "count"}},
+	{lean: "cmsAllSumUpdate", file: "count_min_sketch.go", recv: "CountMinSketch", fn: "Update",
+		kind: tgtStore, name: "allSum", depth: 0, lhsInput: "allSum", params: []string{"allSum", "count"}},
+	{lean: "cmsCellMerge", file: "count_min_sketch.go", recv: "CountMinSketch", fn: "Merge",
+		kind: tgtStore, name: "matrix", depth: 2, lhsInput: "a", params: []string{"a", "b"},
+		alias: map[string]string{"other": "b", "cms1_matrix": "b"}},
 }
 
 // results of functions outside the package (everything else is looked up in the package itself)
@@ -185,11 +222,19 @@ type arithPkg struct {
 	src     map[string][]string
 	structs map[string]*ast.StructType
 	funcs   map[string][]*ast.FuncDecl
+	consts  map[string]*pkgConst
+}
+
+// pkgConst: a package-level `const name [T] = e`
+type pkgConst struct {
+	ty   ast.Expr // declared type or nil
+	val  ast.Expr
+	busy bool
 }
 
 func loadArithPkg(repo string) (*arithPkg, error) {
 	p := &arithPkg{fset: token.NewFileSet(), files: map[string]*ast.File{}, src: map[string][]string{},
-		structs: map[string]*ast.StructType{}, funcs: map[string][]*ast.FuncDecl{}}
+		structs: map[string]*ast.StructType{}, funcs: map[string][]*ast.FuncDecl{}, consts: map[string]*pkgConst{}}
 	matches, err := filepath.Glob(filepath.Join(repo, "*.go"))
 	if err != nil {
 		return nil, err
@@ -219,6 +264,12 @@ func loadArithPkg(repo string) (*arithPkg, error) {
 					if ts, ok := s.(*ast.TypeSpec); ok {
 						if st, ok := ts.Type.(*ast.StructType); ok {
 							p.structs[ts.Name.Name] = st
+						}
+					}
+					// explicit constants only (an omitted value repeats the previous expression, usually with iota)
+					if vs, ok := s.(*ast.ValueSpec); ok && d.Tok == token.CONST && len(vs.Values) == len(vs.Names) {
+						for i, n := range vs.Names {
+							p.consts[n.Name] = &pkgConst{ty: vs.Type, val: vs.Values[i]}
 						}
 					}
 				}
@@ -327,10 +378,81 @@ type arithCtx struct {
 	lets     []letBinding
 	letTy    map[string]goTy
 	busy     map[string]bool
-	lines    map[int]bool
+	lines    map[srcLine]bool
+	// inlined helpers (see frame)
+	binds    map[string]*binding // parameters of the helper being read -> the argument expressions of the call
+	prefix   string              // prefix of the `let` names of the helper's locals
+	depth    int
+	parent   *frame
+	inlined  map[string]int // how often a helper was inlined (for unique prefixes)
+	anyInput bool           // scratch context for typing: every leaf is an input
+	// tgtStore only
+	lhsKey string   // printed left-hand side of the store: an occurrence in the right-hand side is its old value
+	lhsTy  goTy     // element type of the stored field
+	lhsIdx []string // printed index expressions of the left-hand side, outermost first
+}
+
+// frame: the function whose body is being read - the kernel's function or a private helper that is being inlined
+type frame struct {
+	fd       *ast.FuncDecl
+	recvName string
+	recvType string
+	bitsName string
+	assigns  map[string]int
+	binds    map[string]*binding
+	prefix   string
+	depth    int
+	parent   *frame
+}
+
+// binding of a helper parameter: the argument expression, to be read in the caller's frame
+type binding struct {
+	arg     ast.Expr
+	fr      frame
+	visible []ast.Node
+	inLet   bool
+}
+
+type srcLine struct {
+	file string
+	line int
+}
+
+func (c *arithCtx) frame() frame {
+	return frame{c.fd, c.recvName, c.recvType, c.bitsName, c.assigns, c.binds, c.prefix, c.depth, c.parent}
+}
+
+func (c *arithCtx) setFrame(f frame) {
+	c.fd, c.recvName, c.recvType, c.bitsName, c.assigns = f.fd, f.recvName, f.recvType, f.bitsName, f.assigns
+	c.binds, c.prefix, c.depth, c.parent = f.binds, f.prefix, f.depth, f.parent
+}
+
+// newFrame of a function declaration of the package (receiver, `math/bits` import of its file, assignment counts)
+func (p *arithPkg) newFrame(fd *ast.FuncDecl) frame {
+	f := frame{fd: fd, assigns: countAssignments(fd)}
+	if fd.Recv != nil && len(fd.Recv.List) == 1 {
+		f.recvType = typeName(fd.Recv.List[0].Type)
+		if len(fd.Recv.List[0].Names) == 1 {
+			f.recvName = fd.Recv.List[0].Names[0].Name
+		}
+	}
+	if file := p.files[filepath.Base(p.fset.Position(fd.Pos()).Filename)]; file != nil {
+		for _, imp := range file.Imports {
+			if path, _ := strconv.Unquote(imp.Path.Value); path == "math/bits" {
+				f.bitsName = "bits"
+				if imp.Name != nil {
+					f.bitsName = imp.Name.Name
+				}
+			}
+		}
+	}
+	return f
 }
 
 func (c *arithCtx) isParam(name string) bool {
+	if c.anyInput {
+		return true
+	}
 	for _, p := range c.spec.params {
 		if p == name {
 			return true
@@ -360,7 +482,8 @@ func (c *arithCtx) at(pos token.Pos) string {
 }
 
 func (c *arithCtx) mark(n ast.Node) {
-	c.lines[c.pkg.fset.Position(n.Pos()).Line] = true
+	p := c.pkg.fset.Position(n.Pos())
+	c.lines[srcLine{filepath.Base(p.Filename), p.Line}] = true
 }
 
 var leanKeywords = map[string]bool{"at": true, "end": true, "from": true, "fun": true, "have": true, "show": true,
@@ -442,7 +565,12 @@ type found struct {
 	expr    ast.Expr
 	visible []ast.Node // the statements (and loop headers) that precede the target on its path
 	node    ast.Node
+	fwd     *ast.CallExpr // tgtReturn: `return helper(...)` forwards all results of this call
+	fwdN    int           // the number of results
 }
+
+// notFoundErr: the function has no statement of the wanted kind at all (it may have been moved into a helper)
+type notFoundErr struct{ unsupportedErr }
 
 func copyVisible(v []ast.Node, extra ...ast.Node) []ast.Node {
 	r := make([]ast.Node, 0, len(v)+len(extra))
@@ -472,10 +600,10 @@ func (c *arithCtx) matchStmt(s ast.Stmt, visible []ast.Node, out *[]found) {
 				continue
 			}
 			if (as.Tok != token.ASSIGN && as.Tok != token.DEFINE) || len(as.Lhs) != len(as.Rhs) {
-				*out = append(*out, found{nil, visible, s})
+				*out = append(*out, found{expr: nil, visible: visible, node: s})
 				continue
 			}
-			*out = append(*out, found{as.Rhs[i], visible, s})
+			*out = append(*out, found{expr: as.Rhs[i], visible: visible, node: s})
 		}
 	case tgtArg:
 		var exprs []ast.Node
@@ -496,11 +624,11 @@ func (c *arithCtx) matchStmt(s ast.Stmt, visible []ast.Node, out *[]found) {
 				if _, ok := n.(*ast.FuncLit); ok {
 					return false
 				}
-				if call, ok := n.(*ast.CallExpr); ok && types.ExprString(call.Fun) == spec.name {
+				if call, ok := n.(*ast.CallExpr); ok && c.isTargetCall(call) {
 					if spec.index < len(call.Args) && !call.Ellipsis.IsValid() {
-						*out = append(*out, found{call.Args[spec.index], visible, s})
+						*out = append(*out, found{expr: call.Args[spec.index], visible: visible, node: s})
 					} else {
-						*out = append(*out, found{nil, visible, s})
+						*out = append(*out, found{expr: nil, visible: visible, node: s})
 					}
 				}
 				return true
@@ -553,6 +681,9 @@ func (c *arithCtx) walkIf(s *ast.IfStmt, vis []ast.Node, out *[]found) {
 }
 
 func (c *arithCtx) locate() (found, error) {
+	if c.spec.kind == tgtStore {
+		return c.locateStore()
+	}
 	body := c.fd.Body.List
 	if c.spec.kind == tgtReturn {
 		if len(body) == 0 {
@@ -562,14 +693,19 @@ func (c *arithCtx) locate() (found, error) {
 		if !ok {
 			return found{}, unsupportedf("%s: the function body does not end in a return statement", c.at(body[len(body)-1].Pos()))
 		}
-		if c.spec.index >= len(ret.Results) {
-			return found{}, unsupportedf("%s: the final return has no result #%d", c.at(ret.Pos()), c.spec.index)
-		}
 		var vis []ast.Node
 		for _, s := range body[:len(body)-1] {
 			vis = append(vis, s)
 		}
-		return found{ret.Results[c.spec.index], vis, ret}, nil
+		if n := numResults(c.fd); n > 1 && len(ret.Results) == 1 && c.spec.index < n {
+			if call, ok := ret.Results[0].(*ast.CallExpr); ok {
+				return found{expr: nil, visible: vis, node: ret, fwd: call, fwdN: n}, nil
+			}
+		}
+		if c.spec.index >= len(ret.Results) {
+			return found{}, unsupportedf("%s: the final return has no result #%d", c.at(ret.Pos()), c.spec.index)
+		}
+		return found{expr: ret.Results[c.spec.index], visible: vis, node: ret}, nil
 	}
 	var out []found
 	c.walk(body, nil, &out)
@@ -578,7 +714,7 @@ func (c *arithCtx) locate() (found, error) {
 		what = "call of `" + c.spec.name + "`"
 	}
 	if len(out) == 0 {
-		return found{}, unsupportedf("no %s found in straight-line / if / for nesting", what)
+		return found{}, notFoundErr{unsupportedErr{fmt.Sprintf("no %s found in straight-line / if / for nesting", what)}}
 	}
 	if len(out) > 1 {
 		return found{}, unsupportedf("%d candidates for the %s (must be unique)", len(out), what)
@@ -590,13 +726,306 @@ func (c *arithCtx) locate() (found, error) {
 }
 
 // ---------------------------------------------------------------------------------------------
+// store kernels (tgtStore)
+
+var opAssign = map[token.Token]token.Token{token.ADD_ASSIGN: token.ADD, token.SUB_ASSIGN: token.SUB, token.MUL_ASSIGN: token.MUL,
+	token.QUO_ASSIGN: token.QUO, token.REM_ASSIGN: token.REM, token.AND_ASSIGN: token.AND, token.OR_ASSIGN: token.OR,
+	token.XOR_ASSIGN: token.XOR, token.SHL_ASSIGN: token.SHL, token.SHR_ASSIGN: token.SHR, token.AND_NOT_ASSIGN: token.AND_NOT}
+
+// peelIndex strips parentheses and index expressions: base expression and the printed indices, outermost first
+func peelIndex(e ast.Expr) (ast.Expr, []string) {
+	var idx []string
+	for {
+		switch x := e.(type) {
+		case *ast.ParenExpr:
+			e = x.X
+			continue
+		case *ast.IndexExpr:
+			idx = append([]string{types.ExprString(x.Index)}, idx...)
+			e = x.X
+			continue
+		}
+		return e, idx
+	}
+}
+
+// elemType peels n slice / array levels off a type expression
+func elemType(t ast.Expr, n int) goTy {
+	for ; n > 0; n-- {
+		at, ok := t.(*ast.ArrayType)
+		if !ok {
+			return tyNone
+		}
+		t = at.Elt
+	}
+	return tyOfTypeExpr(t)
+}
+
+// mentioned: the identifiers and selected field names of a node
+func mentioned(n ast.Node) map[string]bool {
+	m := map[string]bool{}
+	ast.Inspect(n, func(n ast.Node) bool {
+		switch x := n.(type) {
+		case *ast.Ident:
+			m[x.Name] = true
+		case *ast.SelectorExpr:
+			m[x.Sel.Name] = true
+		}
+		return true
+	})
+	return m
+}
+
+func (c *arithCtx) locateStore() (found, error) {
+	spec := c.spec
+	target := c.recvType + "." + spec.name
+	if c.recvName == "" {
+		return found{}, unsupportedf("the receiver of %s has no name", spec.fn)
+	}
+	isField := func(e ast.Expr) bool {
+		sel, ok := e.(*ast.SelectorExpr)
+		if !ok || sel.Sel.Name != spec.name {
+			return false
+		}
+		id, ok := sel.X.(*ast.Ident)
+		return ok && id.Name == c.recvName
+	}
+	type hit struct {
+		node ast.Stmt
+		as   *ast.AssignStmt // nil: `++`, `--`, a range variable, or the address is taken
+		lhs  ast.Expr
+		pos  token.Pos
+	}
+	var hits []hit
+	ast.Inspect(c.fd.Body, func(n ast.Node) bool {
+		switch s := n.(type) {
+		case *ast.AssignStmt:
+			for _, l := range s.Lhs {
+				if b, _ := peelIndex(l); isField(b) {
+					hits = append(hits, hit{s, s, l, s.Pos()})
+				}
+			}
+		case *ast.IncDecStmt:
+			if b, _ := peelIndex(s.X); isField(b) {
+				hits = append(hits, hit{s, nil, s.X, s.Pos()})
+			}
+		case *ast.RangeStmt:
+			for _, kv := range []ast.Expr{s.Key, s.Value} {
+				if kv == nil {
+					continue
+				}
+				if b, _ := peelIndex(kv); isField(b) {
+					hits = append(hits, hit{s, nil, kv, s.Pos()})
+				}
+			}
+		case *ast.UnaryExpr:
+			if s.Op == token.AND {
+				if b, _ := peelIndex(s.X); isField(b) {
+					hits = append(hits, hit{nil, nil, s.X, s.Pos()})
+				}
+			}
+		}
+		return true
+	})
+	if len(hits) == 0 {
+		return found{}, notFoundErr{unsupportedErr{fmt.Sprintf("no statement of %s stores to %s", c.fd.Name.Name, target)}}
+	}
+	if len(hits) > 1 {
+		var at []string
+		for _, h := range hits {
+			at = append(at, c.at(h.pos))
+		}
+		return found{}, unsupportedf("%d statements store to %s (%s); the read-modify-write statement must be the only one", len(hits), target, strings.Join(at, ", "))
+	}
+	h := hits[0]
+	if h.as == nil {
+		return found{}, unsupportedf("%s: %s is changed by ++ / -- / a range clause or its address is taken", c.at(h.pos), types.ExprString(h.lhs))
+	}
+	as := h.as
+	if len(as.Lhs) != 1 || len(as.Rhs) != 1 {
+		return found{}, unsupportedf("%s: the store to %s is a multiple assignment", c.at(h.pos), target)
+	}
+	_, idx := peelIndex(as.Lhs[0])
+	if len(idx) != spec.depth {
+		return found{}, unsupportedf("%s: the store %s has %d index levels, expected %d", c.at(h.pos), types.ExprString(as.Lhs[0]), len(idx), spec.depth)
+	}
+	// the path to the statement: blocks, for and range statements only
+	var resVisible []ast.Node
+	var resLoops []ast.Stmt
+	var path func(list []ast.Stmt, visible []ast.Node, loops []ast.Stmt) bool
+	path = func(list []ast.Stmt, visible []ast.Node, loops []ast.Stmt) bool {
+		for i, s := range list {
+			vis := copyVisible(visible)
+			for _, p := range list[:i] {
+				vis = append(vis, p)
+			}
+			if s == ast.Stmt(as) {
+				resVisible, resLoops = vis, loops
+				return true
+			}
+			inner := append(append([]ast.Stmt{}, loops...), s)
+			switch s := s.(type) {
+			case *ast.BlockStmt:
+				if path(s.List, vis, loops) {
+					return true
+				}
+			case *ast.ForStmt:
+				v := vis
+				if s.Init != nil {
+					v = copyVisible(vis, s.Init)
+				}
+				if path(s.Body.List, v, inner) {
+					return true
+				}
+			case *ast.RangeStmt:
+				if path(s.Body.List, copyVisible(vis, s), inner) {
+					return true
+				}
+			case *ast.LabeledStmt:
+				if path([]ast.Stmt{s.Stmt}, vis, loops) {
+					return true
+				}
+			}
+		}
+		return false
+	}
+	if !path(c.fd.Body.List, nil, nil) {
+		return found{}, unsupportedf("%s: the store to %s is conditional (inside an if / switch / select / closure)", c.at(h.pos), target)
+	}
+	for _, l := range resLoops {
+		var body *ast.BlockStmt
+		switch l := l.(type) {
+		case *ast.ForStmt:
+			body = l.Body
+		case *ast.RangeStmt:
+			body = l.Body
+		}
+		if len(body.List) != 1 {
+			return found{}, unsupportedf("%s: the body of the loop around the store to %s has %d statements (the store must be the only one)", c.at(l.Pos()), target, len(body.List))
+		}
+	}
+	// no guard on the operands before the statement
+	ops := map[string]bool{} // operands: identifiers and selected field names (not the struct a field is selected from)
+	ast.Inspect(as, func(n ast.Node) bool {
+		switch x := n.(type) {
+		case *ast.SelectorExpr:
+			ops[x.Sel.Name] = true
+			_, isIdent := x.X.(*ast.Ident)
+			return !isIdent
+		case *ast.Ident:
+			ops[x.Name] = true
+		}
+		return true
+	})
+	for _, v := range resVisible {
+		switch v.(type) {
+		case *ast.IfStmt, *ast.SwitchStmt, *ast.TypeSwitchStmt, *ast.SelectStmt:
+			var clash []string
+			for name := range mentioned(v) {
+				if ops[name] {
+					clash = append(clash, name)
+				}
+			}
+			if len(clash) > 0 {
+				sort.Strings(clash)
+				return found{}, unsupportedf("%s: a conditional statement before the store to %s mentions its operand(s) %s", c.at(v.Pos()), target, strings.Join(clash, ", "))
+			}
+		}
+	}
+	if d := c.findLocal(c.recvName, resVisible); d != nil {
+		return found{}, unsupportedf("%s: receiver name `%s` is shadowed", c.at(h.pos), c.recvName)
+	}
+	ft := c.pkg.fieldType(c.recvType, spec.name, 0)
+	if ft == nil {
+		return found{}, unsupportedf("%s: no field %s in %s", c.at(h.pos), spec.name, c.recvType)
+	}
+	c.lhsTy = elemType(ft, spec.depth)
+	if c.lhsTy == tyNone {
+		return found{}, unsupportedf("%s: %s (field type %s) is not an integer", c.at(h.pos), types.ExprString(as.Lhs[0]), types.ExprString(ft))
+	}
+	c.lhsKey = types.ExprString(as.Lhs[0])
+	c.lhsIdx = idx
+	for _, l := range resLoops {
+		c.mark(l) // quote the loop headers
+	}
+	var e ast.Expr
+	if as.Tok == token.ASSIGN {
+		e = as.Rhs[0]
+	} else if op, ok := opAssign[as.Tok]; ok {
+		e = &ast.BinaryExpr{X: as.Lhs[0], OpPos: as.TokPos, Op: op, Y: as.Rhs[0]}
+	} else {
+		return found{}, unsupportedf("%s: assignment operator %s", c.at(h.pos), as.Tok)
+	}
+	return found{expr: e, visible: resVisible, node: as}, nil
+}
+
+// storeElemLeaf: `x[i]..[j]` of a local slice, or `p.f[i]..[j]` of a parameter of the receiver's type, indexed
+// exactly like the left-hand side of the store
+func (c *arithCtx) storeElemLeaf(ix *ast.IndexExpr, visible []ast.Node) (lexpr, goTy, error) {
+	base, idx := peelIndex(ix)
+	pos := c.at(ix.Pos())
+	if strings.Join(idx, "][") != strings.Join(c.lhsIdx, "][") {
+		return lexpr{}, tyNone, unsupportedf("%s: %s is not indexed like the stored element %s", pos, types.ExprString(ix), c.lhsKey)
+	}
+	var name string
+	var ty ast.Expr
+	switch b := base.(type) {
+	case *ast.Ident:
+		d := c.findLocal(b.Name, visible)
+		if d == nil || d.isParam {
+			return lexpr{}, tyNone, unsupportedf("%s: `%s` is not a local slice", pos, b.Name)
+		}
+		if c.assigns[b.Name] != 1 {
+			return lexpr{}, tyNone, unsupportedf("%s: local `%s` is assigned %d times in the function", pos, b.Name, c.assigns[b.Name])
+		}
+		name = b.Name
+		if d.ty != nil {
+			ty = d.ty
+		} else if call, ok := d.rhs.(*ast.CallExpr); ok && len(call.Args) >= 2 {
+			if f, ok := call.Fun.(*ast.Ident); ok && f.Name == "make" && c.findLocal("make", visible) == nil {
+				ty = call.Args[0]
+			}
+		}
+		if ty == nil {
+			return lexpr{}, tyNone, unsupportedf("%s: local `%s` is not declared with a slice type or make", pos, b.Name)
+		}
+	case *ast.SelectorExpr:
+		id, ok := b.X.(*ast.Ident)
+		if !ok {
+			return lexpr{}, tyNone, unsupportedf("%s: element of %s", pos, types.ExprString(b))
+		}
+		d := c.findLocal(id.Name, visible)
+		if d == nil || !d.isParam || typeName(d.ty) != c.recvType || c.assigns[id.Name] > 0 {
+			return lexpr{}, tyNone, unsupportedf("%s: `%s` is not an unmodified parameter of type %s", pos, id.Name, c.recvType)
+		}
+		name = id.Name + "_" + b.Sel.Name
+		ty = c.pkg.fieldType(c.recvType, b.Sel.Name, 0)
+		if ty == nil {
+			return lexpr{}, tyNone, unsupportedf("%s: no field %s in %s", pos, b.Sel.Name, c.recvType)
+		}
+	default:
+		return lexpr{}, tyNone, unsupportedf("%s: index expression %s", pos, types.ExprString(ix))
+	}
+	t := elemType(ty, len(idx))
+	if t == tyNone {
+		return lexpr{}, tyNone, unsupportedf("%s: %s (of type %s) is not an integer", pos, types.ExprString(ix), types.ExprString(ty))
+	}
+	in, ok := c.spec.alias[name]
+	if !ok {
+		return lexpr{}, tyNone, unsupportedf("%s: element of `%s` is not among the operands %v of the kernel", pos, name, c.spec.alias)
+	}
+	return c.input(in, t, "element of "+types.ExprString(base)+", indexed like the store", ix.Pos())
+}
+
+// ---------------------------------------------------------------------------------------------
 // declarations of locals
 
 type localDecl struct {
 	ty      ast.Expr      // declared type, or nil
 	rhs     ast.Expr      // one-to-one initialiser, or nil
-	call    *ast.CallExpr // multi-value call initialiser and the result index
+	call    *ast.CallExpr // multi-value call initialiser, the result index and the number of results
 	callIdx int
+	callN   int
 	rangeOf ast.Expr // key of `for k := range X`
 	visible []ast.Node
 	node    ast.Node
@@ -621,7 +1050,7 @@ func (c *arithCtx) findLocal(name string, visible []ast.Node) *localDecl {
 					d.rhs = s.Rhs[k]
 				} else if len(s.Rhs) == 1 {
 					if call, ok := s.Rhs[0].(*ast.CallExpr); ok {
-						d.call, d.callIdx = call, k
+						d.call, d.callIdx, d.callN = call, k, len(s.Lhs)
 					}
 				}
 				return d
@@ -642,7 +1071,7 @@ func (c *arithCtx) findLocal(name string, visible []ast.Node) *localDecl {
 						d.rhs = vs.Values[k]
 					} else if len(vs.Values) == 1 {
 						if call, ok := vs.Values[0].(*ast.CallExpr); ok {
-							d.call, d.callIdx = call, k
+							d.call, d.callIdx, d.callN = call, k, len(vs.Names)
 						}
 					}
 					return d
@@ -727,9 +1156,10 @@ func (c *arithCtx) localType(name string, d *localDecl, pos token.Pos) (goTy, er
 			}
 		}
 		// type of an arithmetic initialiser: translate it in a scratch context that accepts every leaf
-		sc := &arithCtx{pkg: c.pkg, fd: c.fd, recvName: c.recvName, recvType: c.recvType, bitsName: c.bitsName,
-			assigns: map[string]int{}, inputTy: map[string]goTy{}, inputSrc: map[string]string{}, letTy: map[string]goTy{},
-			busy: map[string]bool{}, lines: map[int]bool{}}
+		sc := &arithCtx{pkg: c.pkg, inputTy: map[string]goTy{}, inputSrc: map[string]string{}, letTy: map[string]goTy{},
+			busy: map[string]bool{}, lines: map[srcLine]bool{}, inlined: map[string]int{}, anyInput: true}
+		sc.setFrame(c.frame())
+		sc.assigns = map[string]int{}
 		anySpec := *c.spec
 		anySpec.params = nil
 		sc.spec = &anySpec
@@ -767,9 +1197,40 @@ func (c *arithCtx) ident(id *ast.Ident, visible []ast.Node, inLet bool) (lexpr, 
 	name := id.Name
 	d := c.findLocal(name, visible)
 	if d == nil {
+		if v, t, ok, err := c.pkgConst(name, id.Pos()); ok {
+			return v, t, err
+		}
 		return lexpr{}, tyNone, unsupportedf("%s: identifier `%s` is neither a parameter nor a local of the straight-line path", c.at(id.Pos()), name)
 	}
-	if c.isParam(name) {
+	if b := c.binds[name]; b != nil && d.isParam {
+		// parameter of an inlined helper: the argument expression, read in the caller
+		if c.assigns[name] > 0 {
+			return lexpr{}, tyNone, unsupportedf("%s: parameter `%s` of the inlined helper %s is reassigned", c.at(id.Pos()), name, c.fd.Name.Name)
+		}
+		pt := tyOfTypeExpr(d.ty)
+		if pt == tyNone {
+			return lexpr{}, tyNone, unsupportedf("%s: parameter `%s` of %s has type %s", c.at(id.Pos()), name, c.fd.Name.Name, types.ExprString(d.ty))
+		}
+		here := c.frame()
+		c.setFrame(b.fr)
+		e, t, err := c.expr(b.arg, b.visible, b.inLet || inLet)
+		if err == nil && t == tyUntyped {
+			e, err = c.typedConst(b.arg, pt)
+			t = pt
+		}
+		c.setFrame(here)
+		if err != nil {
+			return lexpr{}, tyNone, err
+		}
+		if t != pt {
+			return lexpr{}, tyNone, unsupportedf("%s: argument %s of type %s for parameter `%s %s` (type inference of the translator is off)", c.at(b.arg.Pos()), types.ExprString(b.arg), t, name, pt)
+		}
+		return e, t, nil
+	}
+	if c.parent != nil && d.isParam {
+		return lexpr{}, tyNone, unsupportedf("%s: `%s` is not a bound parameter of the inlined helper %s", c.at(id.Pos()), name, c.fd.Name.Name)
+	}
+	if c.isParam(name) && c.parent == nil {
 		t, err := c.localType(name, d, id.Pos())
 		if err != nil {
 			return lexpr{}, tyNone, err
@@ -784,27 +1245,47 @@ func (c *arithCtx) ident(id *ast.Ident, visible []ast.Node, inLet bool) (lexpr, 
 		if d.rangeOf != nil {
 			c.mark(d.node) // quote the loop header too
 		}
+		if c.spec.kind == tgtStore && c.assigns[name] > 0 && d.isParam {
+			return lexpr{}, tyNone, unsupportedf("%s: operand `%s` of the store is a parameter that is reassigned in the function", c.at(id.Pos()), name)
+		}
 		return c.input(name, t, "local", id.Pos())
 	}
 	// a local that is not an input: inline its definition as a `let`
-	if t, ok := c.letTy[name]; ok {
-		return lexpr{leanIdent(name), true}, t, nil
+	lname := c.prefix + name // locals of an inlined helper are prefixed with the helper's name
+	if t, ok := c.letTy[lname]; ok {
+		return lexpr{leanIdent(lname), true}, t, nil
 	}
-	if c.busy[name] {
+	if c.busy[lname] {
 		return lexpr{}, tyNone, unsupportedf("%s: cyclic definition of `%s`", c.at(id.Pos()), name)
 	}
-	if d.rhs == nil {
+	if d.rhs == nil && d.call == nil {
 		return lexpr{}, tyNone, unsupportedf("%s: local `%s` is not an input of the kernel %v and has no arithmetic definition to inline", c.at(id.Pos()), name, c.spec.params)
 	}
 	if c.assigns[name] != 1 {
 		return lexpr{}, tyNone, unsupportedf("%s: local `%s` is assigned %d times in the function; only single-assignment locals are inlined", c.at(id.Pos()), name, c.assigns[name])
 	}
-	if c.inputSrc[name] != "" {
-		return lexpr{}, tyNone, unsupportedf("%s: local `%s` clashes with an input of the same name", c.at(id.Pos()), name)
+	if call, ok := d.rhs.(*ast.CallExpr); ok && d.ty == nil {
+		// the local holds the result of a call that is an input by what it is (`callIn`): the input itself, no `let`
+		if e, t, ok, err := c.callInput(call, d.visible); ok {
+			if err == nil {
+				c.mark(d.node)
+			}
+			return e, t, err
+		}
 	}
-	c.busy[name] = true
-	e, t, err := c.expr(d.rhs, d.visible, true)
-	delete(c.busy, name)
+	if c.inputSrc[lname] != "" || (lname != name && c.isParam(lname)) {
+		return lexpr{}, tyNone, unsupportedf("%s: local `%s` clashes with an input of the same name", c.at(id.Pos()), lname)
+	}
+	c.busy[lname] = true
+	var e lexpr
+	var t goTy
+	var err error
+	if d.rhs != nil {
+		e, t, err = c.expr(d.rhs, d.visible, true)
+	} else { // `a, b := helper(...)`
+		e, t, err = c.inlineCall(d.call, d.callIdx, d.callN, d.visible, true)
+	}
+	delete(c.busy, lname)
 	if err != nil {
 		return lexpr{}, tyNone, err
 	}
@@ -813,26 +1294,26 @@ func (c *arithCtx) ident(id *ast.Ident, visible []ast.Node, inLet bool) (lexpr, 
 		if dt == tyNone || (t != tyUntyped && t != dt) {
 			return lexpr{}, tyNone, unsupportedf("%s: declared type %s of `%s` does not match", c.at(id.Pos()), types.ExprString(d.ty), name)
 		}
-		if t == tyUntyped {
+		if t == tyUntyped && d.rhs != nil {
 			if e, err = c.typedConst(d.rhs, dt); err != nil {
 				return lexpr{}, tyNone, err
 			}
 		}
 		t = dt
 	}
-	if t == tyUntyped { // `k := 5` is an int
+	if t == tyUntyped && d.rhs != nil { // `k := 5` is an int
 		if e, err = c.typedConst(d.rhs, tyInt); err != nil {
 			return lexpr{}, tyNone, err
 		}
 		t = tyInt
 	}
 	c.mark(d.node)
-	c.lets = append(c.lets, letBinding{name, e})
-	c.letTy[name] = t
-	return lexpr{leanIdent(name), true}, t, nil
+	c.lets = append(c.lets, letBinding{lname, e})
+	c.letTy[lname] = t
+	return lexpr{leanIdent(lname), true}, t, nil
 }
 
-// constant value of an untyped constant expression (literals, parentheses)
+// constant value of a literal (parentheses allowed)
 func constValue(e ast.Expr) *big.Int {
 	switch x := e.(type) {
 	case *ast.ParenExpr:
@@ -850,9 +1331,48 @@ func constValue(e ast.Expr) *big.Int {
 	return nil
 }
 
+// constant value of an untyped constant expression (literals, parentheses, package-level constants, + - *)
+func (c *arithCtx) constVal(e ast.Expr) *big.Int {
+	switch x := e.(type) {
+	case *ast.ParenExpr:
+		return c.constVal(x.X)
+	case *ast.Ident:
+		// a package-level constant, unless the function has a parameter or local of that name
+		if c.fd == nil || c.assigns[x.Name] > 0 || c.funcParam(x.Name) {
+			return nil
+		}
+		v, _ := c.pkg.constEval(x.Name, 0)
+		return v
+	case *ast.BinaryExpr:
+		a, b := c.constVal(x.X), c.constVal(x.Y)
+		if a == nil || b == nil {
+			return nil
+		}
+		switch x.Op {
+		case token.ADD:
+			return new(big.Int).Add(a, b)
+		case token.SUB:
+			return new(big.Int).Sub(a, b)
+		case token.MUL:
+			return new(big.Int).Mul(a, b)
+		}
+		return nil
+	case *ast.BasicLit:
+		if x.Kind != token.INT {
+			return nil
+		}
+		v, ok := new(big.Int).SetString(strings.ReplaceAll(x.Value, "_", ""), 0)
+		if !ok {
+			return nil
+		}
+		return v
+	}
+	return nil
+}
+
 // typedConst: an untyped constant converted to type t (must be representable)
 func (c *arithCtx) typedConst(e ast.Expr, t goTy) (lexpr, error) {
-	v := constValue(e)
+	v := c.constVal(e)
 	if v == nil {
 		return lexpr{}, unsupportedf("%s: constant expression %s", c.at(e.Pos()), types.ExprString(e))
 	}
@@ -870,11 +1390,19 @@ var leanOp = map[token.Token]string{token.ADD: "+", token.SUB: "-", token.MUL: "
 	token.XOR: "^^^", token.AND: "&&&", token.OR: "|||"}
 
 func (c *arithCtx) expr(e ast.Expr, visible []ast.Node, inLet bool) (lexpr, goTy, error) {
+	if c.lhsKey != "" {
+		if _, isParen := e.(*ast.ParenExpr); !isParen && types.ExprString(e) == c.lhsKey {
+			return c.input(c.spec.lhsInput, c.lhsTy, "old value of "+c.lhsKey, e.Pos())
+		}
+		if ix, ok := e.(*ast.IndexExpr); ok {
+			return c.storeElemLeaf(ix, visible)
+		}
+	}
 	switch x := e.(type) {
 	case *ast.ParenExpr:
 		return c.expr(x.X, visible, inLet)
 	case *ast.BasicLit:
-		v := constValue(x)
+		v := c.constVal(x)
 		if v == nil {
 			return lexpr{}, tyNone, unsupportedf("%s: literal %s", c.at(x.Pos()), x.Value)
 		}
@@ -900,11 +1428,14 @@ func (c *arithCtx) expr(e ast.Expr, visible []ast.Node, inLet bool) (lexpr, goTy
 		if inLet && c.assigns[types.ExprString(x)] > 0 {
 			return lexpr{}, tyNone, unsupportedf("%s: %s is read by an inlined local but assigned in the function", c.at(x.Pos()), types.ExprString(x))
 		}
+		if err := c.sameField(x.Sel.Name, x.Pos()); err != nil {
+			return lexpr{}, tyNone, err
+		}
 		return c.input(x.Sel.Name, t, "field", x.Pos())
 	case *ast.IndexExpr:
 		// a[<literal>] of an array-typed parameter
 		id, ok := x.X.(*ast.Ident)
-		v := constValue(x.Index)
+		v := c.constVal(x.Index)
 		if !ok || v == nil {
 			return lexpr{}, tyNone, unsupportedf("%s: index expression %s", c.at(x.Pos()), types.ExprString(x))
 		}
@@ -961,6 +1492,9 @@ func (c *arithCtx) binary(x *ast.BinaryExpr, visible []ast.Node, inLet bool) (le
 		return truncTo(ta, lexpr{"GoArith.goShl " + a.paren() + " " + b.paren(), false}), ta, nil
 	case token.ADD, token.SUB, token.MUL, token.QUO, token.REM, token.XOR, token.AND, token.OR, token.AND_NOT:
 		if ta == tyUntyped && tb == tyUntyped {
+			if v := c.constVal(x); v != nil && v.Sign() >= 0 {
+				return lexpr{v.String(), true}, tyUntyped, nil
+			}
 			return lexpr{}, tyNone, unsupportedf("%s: constant expression %s", pos, types.ExprString(x))
 		}
 		if ta == tyUntyped {
@@ -1030,6 +1564,9 @@ func (c *arithCtx) call(x *ast.CallExpr, visible []ast.Node, inLet bool) (lexpr,
 					if c.pkg.fieldType(c.recvType, sel.Sel.Name, 0) == nil {
 						return lexpr{}, tyNone, unsupportedf("%s: no field %s in %s", pos, sel.Sel.Name, c.recvType)
 					}
+					if err := c.sameField(sel.Sel.Name, x.Pos()); err != nil {
+						return lexpr{}, tyNone, err
+					}
 					return c.input("len_"+sel.Sel.Name, tyInt, "len", x.Pos())
 				}
 			}
@@ -1046,7 +1583,418 @@ func (c *arithCtx) call(x *ast.CallExpr, visible []ast.Node, inLet bool) (lexpr,
 		}
 		return lexpr{"GoArith.clz64u " + a.paren(), false}, tyInt, nil
 	}
-	return lexpr{}, tyNone, unsupportedf("%s: call of %s", pos, fun)
+	if e, t, ok, err := c.callInput(x, visible); ok {
+		return e, t, err
+	}
+	return c.inlineCall(x, 0, 1, visible, inLet)
+}
+
+// ---------------------------------------------------------------------------------------------
+// package constants, private helpers
+
+func (c *arithCtx) funcParam(name string) bool {
+	for _, fl := range []*ast.FieldList{c.fd.Type.Params, c.fd.Type.Results} {
+		if fl == nil {
+			continue
+		}
+		for _, f := range fl.List {
+			for _, n := range f.Names {
+				if n.Name == name {
+					return true
+				}
+			}
+		}
+	}
+	return false
+}
+
+// constEval: the value of a package-level integer constant (literals, parentheses, other constants, + - *)
+func (p *arithPkg) constEval(name string, depth int) (*big.Int, goTy) {
+	k := p.consts[name]
+	if k == nil || k.busy || depth > 8 {
+		return nil, tyNone
+	}
+	k.busy = true
+	defer func() { k.busy = false }()
+	var ev func(e ast.Expr) *big.Int
+	ev = func(e ast.Expr) *big.Int {
+		switch x := e.(type) {
+		case *ast.ParenExpr:
+			return ev(x.X)
+		case *ast.BasicLit:
+			if x.Kind != token.INT {
+				return nil
+			}
+			v, ok := new(big.Int).SetString(strings.ReplaceAll(x.Value, "_", ""), 0)
+			if !ok {
+				return nil
+			}
+			return v
+		case *ast.Ident:
+			v, _ := p.constEval(x.Name, depth+1)
+			return v
+		case *ast.BinaryExpr:
+			a, b := ev(x.X), ev(x.Y)
+			if a == nil || b == nil {
+				return nil
+			}
+			switch x.Op {
+			case token.ADD:
+				return new(big.Int).Add(a, b)
+			case token.SUB:
+				return new(big.Int).Sub(a, b)
+			case token.MUL:
+				return new(big.Int).Mul(a, b)
+			}
+		}
+		return nil
+	}
+	v := ev(k.val)
+	if v == nil {
+		return nil, tyNone
+	}
+	t := tyUntyped
+	if k.ty != nil {
+		if t = tyOfTypeExpr(k.ty); t == tyNone {
+			return nil, tyNone
+		}
+	}
+	return v, t
+}
+
+// pkgConst: identifier that is no local -> package-level integer constant, by value
+func (c *arithCtx) pkgConst(name string, pos token.Pos) (lexpr, goTy, bool, error) {
+	if c.pkg.consts[name] == nil {
+		return lexpr{}, tyNone, false, nil
+	}
+	v, t := c.pkg.constEval(name, 0)
+	if v == nil {
+		return lexpr{}, tyNone, true, unsupportedf("%s: package constant `%s` is not a plain integer constant", c.at(pos), name)
+	}
+	if t != tyUntyped {
+		bits := t.width()
+		if t.signed() {
+			bits = 63
+		}
+		if v.Sign() < 0 || v.BitLen() > bits {
+			return lexpr{}, tyNone, true, unsupportedf("%s: constant %s = %s does not fit %s (or is negative)", c.at(pos), name, v.String(), t)
+		}
+	}
+	return lexpr{v.String(), true}, t, true, nil
+}
+
+func numResults(fd *ast.FuncDecl) int {
+	n := 0
+	if fd.Type.Results != nil {
+		for _, f := range fd.Type.Results.List {
+			if len(f.Names) == 0 {
+				n++
+			} else {
+				n += len(f.Names)
+			}
+		}
+	}
+	return n
+}
+
+func resultType(fd *ast.FuncDecl, idx int) ast.Expr {
+	if fd.Type.Results != nil {
+		for _, f := range fd.Type.Results.List {
+			k := len(f.Names)
+			if k == 0 {
+				k = 1
+			}
+			if idx < k {
+				return f.Type
+			}
+			idx -= k
+		}
+	}
+	return nil
+}
+
+// embeds: struct `outer` embeds `inner` (directly or through embedded structs)
+func (p *arithPkg) embeds(outer, inner string, depth int) bool {
+	st := p.structs[outer]
+	if st == nil || depth > 4 {
+		return false
+	}
+	for _, f := range st.Fields.List {
+		if len(f.Names) == 0 {
+			if t := typeName(f.Type); t == inner || p.embeds(t, inner, depth+1) {
+				return true
+			}
+		}
+	}
+	return false
+}
+
+// fieldOwner: the struct that declares the field a selector `x.field` on a value of struct type `structName` denotes
+func (p *arithPkg) fieldOwner(structName, field string, depth int) string {
+	st := p.structs[structName]
+	if st == nil || depth > 4 {
+		return ""
+	}
+	for _, f := range st.Fields.List {
+		for _, n := range f.Names {
+			if n.Name == field {
+				return structName
+			}
+		}
+	}
+	for _, f := range st.Fields.List {
+		if len(f.Names) == 0 {
+			if o := p.fieldOwner(typeName(f.Type), field, depth+1); o != "" {
+				return o
+			}
+		}
+	}
+	return ""
+}
+
+// sameField: inside an inlined method, `recv.field` must be the field that `recv.field` denotes in every caller up to
+// the kernel's function (the helper may be declared on an embedded struct), and no caller may assign it
+func (c *arithCtx) sameField(field string, pos token.Pos) error {
+	owner := c.pkg.fieldOwner(c.recvType, field, 0)
+	for f := c.parent; f != nil; f = f.parent {
+		if f.recvType == "" || c.pkg.fieldOwner(f.recvType, field, 0) != owner {
+			return unsupportedf("%s: field %s of the inlined helper's receiver is not the field %s.%s of its caller %s", c.at(pos), field, f.recvType, field, f.fd.Name.Name)
+		}
+		if f.assigns[f.recvName+"."+field] > 0 {
+			return unsupportedf("%s: field %s is read by the inlined helper but assigned in its caller %s", c.at(pos), field, f.fd.Name.Name)
+		}
+	}
+	return nil
+}
+
+func unexported(name string) bool {
+	return name != "" && name != "_" && !ast.IsExported(name)
+}
+
+// callee: the declaration of the unexported package function / method on the receiver that `call` calls, or nil and why not
+func (c *arithCtx) callee(call *ast.CallExpr, visible []ast.Node) (*ast.FuncDecl, string) {
+	var cands []*ast.FuncDecl
+	switch f := call.Fun.(type) {
+	case *ast.Ident:
+		if !unexported(f.Name) {
+			return nil, ""
+		}
+		if c.findLocal(f.Name, visible) != nil {
+			return nil, " (the name is shadowed by a local)"
+		}
+		for _, d := range c.pkg.funcs[f.Name] {
+			if d.Recv == nil && d.Body != nil {
+				cands = append(cands, d)
+			}
+		}
+	case *ast.SelectorExpr:
+		id, ok := f.X.(*ast.Ident)
+		if !ok || c.recvName == "" || id.Name != c.recvName || !unexported(f.Sel.Name) {
+			return nil, ""
+		}
+		if d := c.findLocal(id.Name, visible); d != nil {
+			return nil, " (the receiver name is shadowed)"
+		}
+		if c.pkg.fieldType(c.recvType, f.Sel.Name, 0) != nil {
+			return nil, " (a field, not a method)"
+		}
+		var own, promoted []*ast.FuncDecl
+		for _, d := range c.pkg.funcs[f.Sel.Name] {
+			if d.Recv == nil || len(d.Recv.List) != 1 || d.Body == nil {
+				continue
+			}
+			if t := typeName(d.Recv.List[0].Type); t == c.recvType {
+				own = append(own, d)
+			} else if c.pkg.embeds(c.recvType, t, 0) {
+				promoted = append(promoted, d)
+			}
+		}
+		cands = own
+		if len(own) == 0 {
+			cands = promoted
+		}
+	default:
+		return nil, ""
+	}
+	if len(cands) != 1 {
+		return nil, fmt.Sprintf(" (%d declarations in the package)", len(cands))
+	}
+	return cands[0], ""
+}
+
+// callInput: the call is an input of the kernel by what it computes (spec.callIn: package function -> input name)
+func (c *arithCtx) callInput(call *ast.CallExpr, visible []ast.Node) (lexpr, goTy, bool, error) {
+	id, ok := call.Fun.(*ast.Ident)
+	if !ok {
+		return lexpr{}, tyNone, false, nil
+	}
+	name, ok := c.spec.callIn[id.Name]
+	if !ok || c.findLocal(id.Name, visible) != nil {
+		return lexpr{}, tyNone, false, nil
+	}
+	r := c.pkg.resultTypes(call)
+	if len(r) != 1 || r[0] == tyNone {
+		return lexpr{}, tyNone, true, unsupportedf("%s: result type of %s unknown (input `%s`)", c.at(call.Pos()), id.Name, name)
+	}
+	e, t, err := c.input(name, r[0], "result of "+types.ExprString(call), call.Pos())
+	return e, t, true, err
+}
+
+// inlineCall: result #idx (of nres) of a call of an unexported helper whose body is straight-line code ending in `return`
+func (c *arithCtx) inlineCall(call *ast.CallExpr, idx, nres int, visible []ast.Node, inLet bool) (lexpr, goTy, error) {
+	pos := c.at(call.Pos())
+	fun := types.ExprString(call.Fun)
+	fd, why := c.callee(call, visible)
+	if fd == nil {
+		return lexpr{}, tyNone, unsupportedf("%s: call of %s%s", pos, fun, why)
+	}
+	bad := func(format string, args ...interface{}) (lexpr, goTy, error) {
+		return lexpr{}, tyNone, unsupportedf("%s: call of %s: %s", pos, fun, fmt.Sprintf(format, args...))
+	}
+	if c.depth >= 3 {
+		return bad("helpers nested deeper than 3")
+	}
+	for f := c.parent; f != nil; f = f.parent {
+		if f.fd == fd {
+			return bad("recursive helper")
+		}
+	}
+	if fd == c.fd {
+		return bad("recursive helper")
+	}
+	if call.Ellipsis.IsValid() {
+		return bad("variadic call")
+	}
+	var params []string
+	for _, f := range fd.Type.Params.List {
+		if _, variadic := f.Type.(*ast.Ellipsis); variadic {
+			return bad("variadic helper")
+		}
+		if len(f.Names) == 0 {
+			params = append(params, "_")
+		}
+		for _, n := range f.Names {
+			params = append(params, n.Name)
+		}
+	}
+	if len(params) != len(call.Args) {
+		return bad("%d arguments for %d parameters", len(call.Args), len(params))
+	}
+	if n := numResults(fd); n != nres || idx >= n {
+		return bad("it has %d results, %d are consumed", n, nres)
+	}
+	rt := tyOfTypeExpr(resultType(fd, idx))
+	if rt == tyNone {
+		return bad("result #%d has type %s", idx, types.ExprString(resultType(fd, idx)))
+	}
+	body := fd.Body.List
+	if len(body) == 0 {
+		return bad("empty body")
+	}
+	ret, ok := body[len(body)-1].(*ast.ReturnStmt)
+	if !ok {
+		return bad("its body does not end in a return statement")
+	}
+	var vis []ast.Node
+	for _, s := range body[:len(body)-1] {
+		switch s := s.(type) {
+		case *ast.AssignStmt:
+			if s.Tok != token.DEFINE {
+				return bad("its body is not straight-line declarations and a return (%s)", c.at(s.Pos()))
+			}
+		case *ast.DeclStmt:
+		default:
+			return bad("its body is not straight-line declarations and a return (%s)", c.at(s.Pos()))
+		}
+		vis = append(vis, s)
+	}
+	var target ast.Expr
+	var fwd *ast.CallExpr
+	switch {
+	case len(ret.Results) == nres:
+		target = ret.Results[idx]
+	case len(ret.Results) == 1 && nres > 1:
+		if fwd, ok = ret.Results[0].(*ast.CallExpr); !ok {
+			return bad("its return statement has %d results", len(ret.Results))
+		}
+	default:
+		return bad("its return statement has %d results", len(ret.Results))
+	}
+	here := c.frame()
+	nf := c.pkg.newFrame(fd)
+	nf.depth, nf.parent = c.depth+1, &here
+	c.inlined[fd.Name.Name]++
+	nf.prefix = fd.Name.Name + "_"
+	if n := c.inlined[fd.Name.Name]; n > 1 {
+		nf.prefix = fmt.Sprintf("%s_%d_", fd.Name.Name, n)
+	}
+	nf.binds = map[string]*binding{}
+	for i, p := range params {
+		if p != "_" {
+			nf.binds[p] = &binding{arg: call.Args[i], fr: here, visible: visible, inLet: inLet}
+		}
+	}
+	c.setFrame(nf)
+	defer c.setFrame(here)
+	c.mark(ret)
+	if fwd != nil {
+		return c.inlineCall(fwd, idx, nres, vis, inLet)
+	}
+	e, t, err := c.expr(target, vis, inLet)
+	if err != nil {
+		return lexpr{}, tyNone, err
+	}
+	if t == tyUntyped {
+		if e, err = c.typedConst(target, rt); err != nil {
+			return lexpr{}, tyNone, err
+		}
+		t = rt
+	}
+	if t != rt {
+		return bad("it returns a %s as %s (type inference of the translator is off)", t, rt)
+	}
+	return e, rt, nil
+}
+
+// isTargetCall (tgtArg): the call prints as spec.name; for `r.m` the actual receiver name stands for `r`
+func (c *arithCtx) isTargetCall(call *ast.CallExpr) bool {
+	if types.ExprString(call.Fun) == c.spec.name {
+		return true
+	}
+	if i := strings.IndexByte(c.spec.name, '.'); i > 0 && c.recvName != "" {
+		if sel, ok := call.Fun.(*ast.SelectorExpr); ok && sel.Sel.Name == c.spec.name[i+1:] {
+			if id, ok := sel.X.(*ast.Ident); ok && id.Name == c.recvName {
+				return true
+			}
+		}
+	}
+	return false
+}
+
+// privateCallees: the unexported functions / methods on the receiver that the function calls, transitively (breadth first)
+func (p *arithPkg) privateCallees(root frame, depth int) []*ast.FuncDecl {
+	var out []*ast.FuncDecl
+	seen := map[*ast.FuncDecl]bool{root.fd: true}
+	level := []frame{root}
+	for d := 0; d < depth && len(level) > 0; d++ {
+		var next []frame
+		for _, fr := range level {
+			sc := &arithCtx{pkg: p}
+			sc.setFrame(fr)
+			ast.Inspect(fr.fd.Body, func(n ast.Node) bool {
+				if call, ok := n.(*ast.CallExpr); ok {
+					if fd, _ := sc.callee(call, nil); fd != nil && !seen[fd] {
+						seen[fd] = true
+						out = append(out, fd)
+						next = append(next, p.newFrame(fd))
+					}
+				}
+				return true
+			})
+		}
+		level = next
+	}
+	return out
 }
 
 // ---------------------------------------------------------------------------------------------
@@ -1090,24 +2038,40 @@ func (p *arithPkg) translate(spec *kernelSpec) kernelResult {
 	if fd == nil {
 		return fail(unsupportedf("function %s not found in %s", fnName, spec.file))
 	}
-	c := &arithCtx{pkg: p, spec: spec, fd: fd, recvType: spec.recv, assigns: countAssignments(fd),
-		inputTy: map[string]goTy{}, inputSrc: map[string]string{}, letTy: map[string]goTy{}, busy: map[string]bool{}, lines: map[int]bool{}}
-	if fd.Recv != nil && len(fd.Recv.List[0].Names) == 1 {
-		c.recvName = fd.Recv.List[0].Names[0].Name
-	}
-	for _, imp := range file.Imports {
-		if path, _ := strconv.Unquote(imp.Path.Value); path == "math/bits" {
-			c.bitsName = "bits"
-			if imp.Name != nil {
-				c.bitsName = imp.Name.Name
+	c := &arithCtx{pkg: p, spec: spec, inputTy: map[string]goTy{}, inputSrc: map[string]string{}, letTy: map[string]goTy{},
+		busy: map[string]bool{}, lines: map[srcLine]bool{}, inlined: map[string]int{}}
+	c.setFrame(p.newFrame(fd))
+	tgt, err := c.locate()
+	if _, missing := err.(notFoundErr); missing {
+		// the statement may have been moved into an unexported helper of the function: the unique match among them
+		var hits []frame
+		var tgts []found
+		for _, callee := range p.privateCallees(c.frame(), 3) {
+			c.setFrame(p.newFrame(callee))
+			if t, e := c.locate(); e == nil {
+				hits, tgts = append(hits, c.frame()), append(tgts, t)
+			} else if _, missing := e.(notFoundErr); !missing {
+				return fail(e)
 			}
 		}
+		if len(hits) > 1 {
+			return fail(unsupportedf("%v; %d of the helpers it calls have one (must be unique)", err, len(hits)))
+		}
+		if len(hits) == 1 {
+			c.setFrame(hits[0])
+			tgt, err = tgts[0], nil
+			res.where += ", in its helper " + hits[0].fd.Name.Name
+		} else {
+			c.setFrame(p.newFrame(fd))
+		}
 	}
-	tgt, err := c.locate()
 	if err != nil {
 		return fail(err)
 	}
 	e := tgt.expr
+	if tgt.fwd != nil && len(spec.unwrap) > 0 {
+		return fail(unsupportedf("%s: the result is forwarded from %s", c.at(tgt.fwd.Pos()), types.ExprString(tgt.fwd.Fun)))
+	}
 	for _, u := range spec.unwrap {
 		for {
 			p, ok := e.(*ast.ParenExpr)
@@ -1123,7 +2087,13 @@ func (p *arithPkg) translate(spec *kernelSpec) kernelResult {
 		e = call.Args[0]
 	}
 	c.mark(tgt.node)
-	body, ty, err := c.expr(e, tgt.visible, false)
+	var body lexpr
+	var ty goTy
+	if tgt.fwd != nil {
+		body, ty, err = c.inlineCall(tgt.fwd, spec.index, tgt.fwdN, tgt.visible, false)
+	} else {
+		body, ty, err = c.expr(e, tgt.visible, false)
+	}
 	if err != nil {
 		return fail(err)
 	}
@@ -1132,23 +2102,31 @@ func (p *arithPkg) translate(spec *kernelSpec) kernelResult {
 	}
 
 	var b strings.Builder
-	var lines []int
+	var lines []srcLine
 	for l := range c.lines {
 		lines = append(lines, l)
 	}
-	sort.Ints(lines)
+	sort.Slice(lines, func(i, j int) bool { // the kernel's file first
+		a, b := lines[i], lines[j]
+		if a.file != b.file {
+			return a.file == spec.file || (b.file != spec.file && a.file < b.file)
+		}
+		return a.line < b.line
+	})
 	fmt.Fprintf(&b, "/-- %s", res.where)
 	if spec.kind == tgtReturn {
 		fmt.Fprintf(&b, ", result #%d", spec.index)
 	} else if spec.kind == tgtArg {
 		fmt.Fprintf(&b, ", argument #%d of %s", spec.index, spec.name)
+	} else if spec.kind == tgtStore {
+		fmt.Fprintf(&b, ", the store to %s", c.lhsKey)
 	}
 	if len(spec.unwrap) > 0 {
 		fmt.Fprintf(&b, ", inside %s(...)", strings.Join(spec.unwrap, "("))
 	}
 	b.WriteString("\n")
 	for _, l := range lines {
-		fmt.Fprintf(&b, "    %s:%d: %s\n", spec.file, l, strings.ReplaceAll(strings.TrimSpace(p.src[spec.file][l-1]), "-/", "- /"))
+		fmt.Fprintf(&b, "    %s:%d: %s\n", l.file, l.line, strings.ReplaceAll(strings.TrimSpace(p.src[l.file][l.line-1]), "-/", "- /"))
 	}
 	b.WriteString("    inputs:")
 	for i, prm := range spec.params {
@@ -1188,8 +2166,10 @@ func genArith(repo string) (string, error) {
 	b.WriteString("   The integer index / position arithmetic of the Go functions named in the comments, translated\n")
 	b.WriteString("   expression by expression into `UInt64` (uint64 / uint / int / int64: the 64-bit pattern;\n")
 	b.WriteString("   uint8 / uint16 / uint32: zero-extended).  Go shifts and bits.LeadingZeros64 are the functions of\n")
-	b.WriteString("   Gostatix.Model.GoArith.  A kernel outside the supported subset has NO definition here, only a\n")
-	b.WriteString("   comment and an entry in `unsupported`; Gostatix/Props/ArithTie.lean then fails to build. -/\n")
+	b.WriteString("   Gostatix.Model.GoArith.  The `store` kernels are read-modify-write statements of uint64 counters\n")
+	b.WriteString("   (`x op= e` as `x op e` of the old value; the statement must keep its shape, see extract/arith.go).\n")
+	b.WriteString("   A kernel outside the supported subset has NO definition here, only a\n")
+	b.WriteString("   comment and an entry in `unsupported`; Gostatix/Props/ArithTie*.lean then fails to build. -/\n")
 	b.WriteString("import Gostatix.Model.GoArith\n")
 	b.WriteString("namespace Gostatix.Generated.Arith\n")
 	b.WriteString("open Gostatix\n\n")
